@@ -162,7 +162,7 @@ pub fn run_c02(ctx: &Ctx) -> ! {
         "braid_audit_spill",
         "ladder worlds with 258-300 rungs (two strands, one merging with the other after every step): braids of > 256 commands \
          and > 256 convergence points, i.e. both in-memory blocks spill; same oracle",
-        || (crate::world::strategies::spill_recipe(), scenario::script_strategy()).prop_map(|(recipe, sc)| Case { recipe, scripts: vec![sc], subset: 0 }),
+        || (crate::world::strategies::spill_recipe(), scenario::script_strategy()).prop_map(|(recipe, sc)| { let sc = scenario::tame_for_wide_worlds(&recipe, sc); Case { recipe, scripts: vec![sc], subset: 0 } }),
         ctx.pick(4, 120),
         check_c02,
     );
@@ -170,7 +170,7 @@ pub fn run_c02(ctx: &Ctx) -> ! {
         "braid_audit_ladders",
         "3-8 steps of long ladders (120-420 rungs each), branches, runs and merges: thousands of convergence points spread over \
          many spilled convergence-map blocks with overlapping max-cut ranges; same oracle",
-        || (crate::world::strategies::ladders_recipe(), scenario::script_strategy()).prop_map(|(recipe, sc)| Case { recipe, scripts: vec![sc], subset: 0 }),
+        || (crate::world::strategies::ladders_recipe(), scenario::script_strategy()).prop_map(|(recipe, sc)| { let sc = scenario::tame_for_wide_worlds(&recipe, sc); Case { recipe, scripts: vec![sc], subset: 0 } }),
         ctx.pick(6, 200),
         check_c02,
     );
@@ -204,7 +204,7 @@ pub fn run_c03(ctx: &Ctx) -> ! {
     rep.explore(
         "braid_spill",
         "ladder worlds with 258-300 rungs: braids and convergence maps beyond their 256-entry in-memory blocks; same oracle",
-        || (crate::world::strategies::spill_recipe(), scenario::script_strategy()).prop_map(|(recipe, sc)| Case { recipe, scripts: vec![sc], subset: 0 }),
+        || (crate::world::strategies::spill_recipe(), scenario::script_strategy()).prop_map(|(recipe, sc)| { let sc = scenario::tame_for_wide_worlds(&recipe, sc); Case { recipe, scripts: vec![sc], subset: 0 } }),
         ctx.pick(4, 120),
         scenario::check_c03,
     );
@@ -212,7 +212,7 @@ pub fn run_c03(ctx: &Ctx) -> ! {
         "braid_ladders",
         "3-8 steps of long ladders (120-420 rungs each), branches, runs and merges: thousands of convergence points spread over \
          many spilled convergence-map blocks with overlapping max-cut ranges; same oracle",
-        || (crate::world::strategies::ladders_recipe(), scenario::script_strategy()).prop_map(|(recipe, sc)| Case { recipe, scripts: vec![sc], subset: 0 }),
+        || (crate::world::strategies::ladders_recipe(), scenario::script_strategy()).prop_map(|(recipe, sc)| { let sc = scenario::tame_for_wide_worlds(&recipe, sc); Case { recipe, scripts: vec![sc], subset: 0 } }),
         ctx.pick(14, 300),
         scenario::check_c03,
     );
